@@ -270,7 +270,23 @@ impl Property for C10 {
     }
 
     fn generate(rng: &mut Rng, _tier: Tier) -> Trace {
-        let main = gen_history(rng, 1, None);
+        let mut main = gen_history(rng, 1, None);
+        if rng.chance(1, 500) {
+            // scale: hundreds of distinct types / tens of thousands of tracked ids in front of a 64-bit literal
+            // (only the two type-context kinds of plant_giant)
+            let mut tmp = Stream { header: main.header.clone(), insts: vec![] };
+            loop {
+                tmp.insts.clear();
+                tmp.header = main.header.clone();
+                crate::producer::plant_giant(rng, &mut tmp);
+                if tmp.insts.len() > 100 {
+                    break;
+                }
+            }
+            // ids of the giant part start above the history's own ids
+            main.header.bound = tmp.header.bound;
+            main.insts.extend(tmp.insts);
+        }
         let other = gen_history(rng, 1, Some(&main));
         let faults = if rng.chance(1, 4) {
             // literal truncation: drop an operand word / cut inside the stream
@@ -480,7 +496,7 @@ impl Property for C10 {
             let mut c = t.clone();
             c.schedule = Schedule::Alone;
             out.push(c);
-            for j in (0..t.other.insts.len()).rev() {
+            for j in shrink_indices(t.other.insts.len()) {
                 let mut c = t.clone();
                 c.other.insts.remove(j);
                 out.push(c);
@@ -494,7 +510,13 @@ impl Property for C10 {
                 _ => {}
             }
         }
-        for j in (0..t.main.insts.len()).rev() {
+        for (a, b) in shrink_chunks(t.main.insts.len()) {
+            let mut c = t.clone();
+            c.main.insts.drain(a..b);
+            c.faults.clear();
+            out.push(c);
+        }
+        for j in shrink_indices(t.main.insts.len()) {
             let mut c = t.clone();
             c.main.insts.remove(j);
             c.faults = faults::reindex_after_remove(&t.faults, j);
